@@ -191,6 +191,7 @@ func checkProgram(src string, feats map[string]int, inputs ...inputVar) {
 		res.Skipped++
 		return
 	}
+	checkVM(src, inputs)
 	nontrivial := len(feats) >= 5
 	res.Count("spec", src, nontrivial)
 	res.Sample(map[string]interface{}{"source": src, "outcome": clip(real, 160)}, 3)
@@ -200,6 +201,78 @@ func checkProgram(src string, feats map[string]int, inputs ...inputVar) {
 			Input: replayInput{src}, Observed: clip(real, 1500), Expected: clip(ans, 1500),
 			Oracle: "Lean reference interpreter Tengo.Model.Spec (docs/tutorial.md, operators.md, runtime-types.md, builtins.md)"})
 	}
+}
+
+// checkVM: the real VM against the Lean VM model (Tengo.Model.VM) on the code the real compiler emits for
+// src: every dispatched instruction (function, ip, sp, bp, frame index, allocation counter), the outcome,
+// the error text and every global slot; a second run under a small allocation budget.
+func checkVM(src string, inputs []inputVar) {
+	names := make([]string, len(inputs))
+	for i, in := range inputs {
+		names[i] = in.Name
+	}
+	c, err := lib.CompileSource([]byte(src), lib.CompileOpts{Inputs: names})
+	if err != nil || c.BC == nil {
+		res.Dist("vm:compile-error")
+		return
+	}
+	mk := func() map[string]tengo.Object {
+		m := map[string]tengo.Object{}
+		for _, in := range inputs {
+			m[in.Name] = in.mk()
+		}
+		return m
+	}
+	budgets := []int64{-1}
+	h := 0
+	for _, ch := range src {
+		h = h*31 + int(ch)
+	}
+	if h < 0 {
+		h = -h
+	}
+	if h%3 == 0 {
+		budgets = append(budgets, int64(1+h%40))
+	}
+	for _, b := range budgets {
+		st, model, impl, err := lib.VMCompare(drv, c, mk, b)
+		if err != nil {
+			fatal(err)
+		}
+		res.ModelLines++
+		res.Dist("vm:" + st)
+		if b >= 0 {
+			res.Dist("vm-budget:" + strings.Fields(impl + " -")[0])
+		}
+		switch st {
+		case "agree":
+			res.Count("vm", fmt.Sprintf("%d|%s", b, src), len(c.BC.MainFunction.Instructions) > 40)
+		case "differ":
+			res.Disagree(lib.Disagreement{Stream: "vm", Input: replayInput{src}, Model: firstDiff(model, impl), Impl: firstDiff(impl, model)})
+		}
+	}
+}
+
+// firstDiff shows a around the first token where a and b differ.
+func firstDiff(a, b string) string {
+	af, bf := strings.Fields(a), strings.Fields(b)
+	i := 0
+	for i < len(af) && i < len(bf) && af[i] == bf[i] {
+		i++
+	}
+	lo := i - 6
+	if lo < 0 {
+		lo = 0
+	}
+	hi := i + 12
+	if hi > len(af) {
+		hi = len(af)
+	}
+	head := ""
+	if len(af) > 0 {
+		head = af[0]
+	}
+	return fmt.Sprintf("%s … [token %d] %s", head, i, strings.Join(af[lo:hi], " "))
 }
 
 // normalize makes array and immutable-array of function values etc. comparable.
